@@ -1,8 +1,10 @@
+"""C13 mutation run: applies each breaking edit to the scratch copy /tmp/repo-c13 (fixed tree), runs ./check C13 quick, restores. usage: c13_mutants.py [names]"""
 import subprocess, sys, os, re
 REPO='/tmp/repo-c13'; F=REPO+'/qsmtpd/backends/user_vpopm/vpop.c'
 def restore():
     subprocess.run(['git','-C',REPO,'checkout','--','.'],check=True)
-    subprocess.run(['git','-C',REPO,'apply','/root/w/c13/build/tmp/all.diff'],check=True)
+    for f in ('dotdot', 'dashscan', 'nametoolong'):
+        subprocess.run(['git','-C',REPO,'apply','/root/w/c13/fixes/C13-%s.diff' % f],check=True)
 MUTS = {
  'M1-revert-dotdot': [("	if ((localpart->len > 0) && (localpart->len <= 2) && (memcmp(localpart->s, \"..\", localpart->len) == 0))\n		return 0;\n", "")],
  'M2-revert-dashscan': [("p = memchr(p + 1, '-', localpart->len - (p + 1 - localpart->s));", "p = strchr(p + 1, '-');")],
